@@ -384,7 +384,18 @@ let c12_sb (line : string) : string =
       if rest <> [] then bad ("terse-status:" ^ String.concat "," rest);
       let exp_lines = List.sort compare (List.map (fun ((_, path), _) -> ts path ^ ": benchmark") (flat_exec cfg0 benches groups)) in
       if List.sort compare ls <> exp_lines then bad "terse-listing-differs-from-the-program"
-    | 'D' | 'L' | 'A' | 'K' | 'E' -> ()
+    | 'L' | 'A' ->
+      (* the listed leaves (ignored or not) are the registered entries the filter keeps, under their display paths *)
+      let (items, _, rest) = read_tree body in
+      if rest <> [] then bad ("list-status:" ^ String.concat "," rest);
+      let got = List.sort compare (List.filter (fun it -> String.length it > 2 && (it.[0] = 'X' || it.[0] = 'I')) items) in
+      let exp = List.sort compare (List.map (fun (k, path) -> (if int_of_n k = 1 then "I:" else "X:") ^ enc (ts path))
+                                     (flat_list cfg0 benches groups)) in
+      if got <> exp then begin
+        let missing = List.filter (fun x -> not (List.mem x got)) exp and extra = List.filter (fun x -> not (List.mem x exp)) got in
+        bad ("listed-benchmarks-differ-from-the-program missing=" ^ String.concat "+" missing ^ " unexpected=" ^ String.concat "+" extra)
+      end
+    | 'D' | 'K' | 'E' -> ()
     | _ -> bad "unreadable-output") secs;
   if !fail = [] then "true" else "false " ^ String.concat " " (List.rev !fail)
 
